@@ -8,7 +8,7 @@
 (* (sort without carrier, integer beyond TLC's range) is reported in the    *)
 (* `skip` component, never as a failure.                                    *)
 (***************************************************************************)
-EXTENDS Substitution
+EXTENDS NormalForms
 
 CONSTANT Cap             \* maximum number of interpretations per event
 
@@ -277,5 +277,115 @@ SubstContract(e) ==
                      (IF lemma_applies THEN Fl("substitution_lemma", bad = {}) ELSE <<>>),
                      IF lemma_applies THEN <<>> ELSE <<"substitution_lemma">>,
                      IF lemma_applies /\ bad # {} THEN CHOOSE k \in bad : TRUE ELSE -1)
+
+\* ------------------------------------------------------------------ C10
+(* out = proc(f) for the equivalence-preserving rewriters; parts for the partitions *)
+RewriteContract(e) ==
+    LET f == e.f
+        tf == TypeOf(f)
+        target == CASE e.proc = "conj_partition" -> MkAnd(e.parts)
+                    [] e.proc = "disj_partition" -> MkOr(e.parts)
+                    [] OTHER -> e.out
+        tt == TypeOf(target)
+        shapeok == CASE e.proc = "nnf" -> IsNNF(target)
+                     [] e.proc = "prenex" -> (~QuantInBoolPositionsOnly(f)) \/ IsPrenex(target)
+                     [] e.proc = "aig" -> IsAIG(target)
+                     [] e.proc \in {"qelim_shannon", "qelim_selfsub"} -> IsQF(target)
+                     [] OTHER -> TRUE
+        structural == Fl("output_well_typed", tt # Ill) \o
+                      Fl("same_type", tt = Ill \/ tt = tf) \o
+                      Fl("reported_type_out", tt = Ill \/ e.proc \in {"conj_partition", "disj_partition"} \/ e.rty = tt) \o
+                      Fl("no_new_free_symbol", FreeSyms(target) \subseteq FreeSyms(f)) \o
+                      Fl("advertised_shape", shapeok)
+    IN  IF tf = Ill THEN Verdict(<<"input_well_typed">>, <<>>, -1)
+        ELSE IF e.res # "ok" THEN Verdict(<<"raises_on_input_in_fragment">>, <<>>, -1)
+        ELSE IF structural # <<>> THEN Verdict(structural, <<>>, -1)
+        ELSE IF ~(CanEval(f) /\ CanEval(target)) THEN Verdict(<<>>, <<"equivalent">>, -1)
+        ELSE LET w == EquivWitness(f, target) IN Verdict(Fl("equivalent", w = -1), <<>>, w)
+
+\* ------------------------------------------------------------------ C11
+\* interpretations of a set of fresh symbols: exhaustive product of the carriers, or {} if too many
+FreshSpaceSize(fs) == ProdCapped([j \in 1..Len(fs) |-> Len(Carrier(fs[j].ty))], 4096)
+
+(* CNF: out = conversion of f (as formula); equisatisfiable model-by-model *)
+CnfContract(e) ==
+    LET f == e.f
+        out == e.out
+        tf == TypeOf(f)
+        tout == TypeOf(out)
+        base == SymSeq(FreeSyms(f))
+        fresh == SymSeq(FreeSyms(out) \ FreeSyms(f))
+        structural == Fl("output_well_typed", tout # Ill) \o
+                      Fl("same_type", tout = Ill \/ tout = TBool) \o
+                      Fl("is_cnf", IsCNF(out)) \o
+                      Fl("fresh_symbols_are_boolean", \A j \in 1..Len(fresh) : fresh[j].ty = TBool)
+    IN  IF tf # TBool THEN Verdict(<<"input_well_typed">>, <<>>, -1)
+        ELSE IF e.res # "ok" THEN Verdict(<<"raises_on_input_in_fragment">>, <<>>, -1)
+        ELSE IF structural # <<>> THEN Verdict(structural, <<>>, -1)
+        ELSE IF ~(CanEval(f) /\ CanEval(out)) \/ FreshSpaceSize(fresh) > 4096 THEN Verdict(<<>>, <<"equisatisfiable">>, -1)
+        ELSE
+        LET nf == FreshSpaceSize(fresh)
+            fidx == 0..(nf - 1)
+            bidx == InterpIdx(base, Cap)
+            OutAt(I, j) == Eval(out, Override(I, InterpAt(fresh, j, 4096)), QDefault)
+            lost == {k \in bidx : LET I == InterpAt(base, k, Cap)
+                                  IN  ~DivZero(f, I, QDefault) /\ Eval(f, I, QDefault) /\ ~\E j \in fidx : OutAt(I, j)}
+            spurious == {k \in bidx : LET I == InterpAt(base, k, Cap)
+                                      IN  ~DivZero(f, I, QDefault) /\ ~Eval(f, I, QDefault) /\ \E j \in fidx : OutAt(I, j)}
+        IN  Verdict(Fl("models_of_input_extend_to_output", lost = {}) \o
+                    Fl("models_of_output_restrict_to_input", spurious = {}), <<>>,
+                    IF lost # {} THEN CHOOSE k \in lost : TRUE ELSE IF spurious # {} THEN CHOOSE k \in spurious : TRUE ELSE -1)
+
+(* Ackermannization: out has no UF; map[j] = [app, c]: application term -> fresh constant *)
+RECURSIVE ReplaceApps(_, _)
+ReplaceApps(t, amap) ==
+    IF t \in DOMAIN amap THEN amap[t]
+    ELSE [t EXCEPT !.a = [j \in 1..Len(t.a) |-> ReplaceApps(t.a[j], amap)]]
+
+AckContract(e) ==
+    LET f == e.f
+        out == e.out
+        tout == TypeOf(out)
+        amap == [ap \in {e.map[j].app : j \in 1..Len(e.map)} |->
+                    LET m == e.map[CHOOSE j \in 1..Len(e.map) : e.map[j].app = ap] IN Sym(m.c, TyF(ap))]
+        consts == {BVar(amap[ap].n, amap[ap].ty) : ap \in DOMAIN amap}
+        funs == {s \in FreeSyms(f) : s.ty.k = "Fun"}
+        plain == SymSeq(FreeSyms(f) \ funs)
+        allsyms == SymSeq(FreeSyms(f))
+        osyms == SymSeq(FreeSyms(out) \cup (FreeSyms(f) \ funs) \cup consts)
+        structural == Fl("output_well_typed", tout # Ill) \o
+                      Fl("same_type", tout = Ill \/ tout = TBool) \o
+                      Fl("no_uf_left", NoUF(out)) \o
+                      Fl("only_ack_constants_are_new", FreeSyms(out) \subseteq (FreeSyms(f) \ funs) \cup consts)
+        \* function tables read off a model M of out
+        Entries(M, fn) == {<<[j \in 1..Len(ap.a) |-> Eval(ReplaceApps(ap.a[j], amap), M, QDefault)], M[amap[ap].n]>> :
+                               ap \in {a \in DOMAIN amap : a.n = fn}}
+        WellDef(M, fn) == \A p1, p2 \in Entries(M, fn) : p1[1] = p2[1] => p1[2] = p2[2]
+        Table(M, fnsym) == LET es == Entries(M, fnsym.n)
+                               args == {p[1] : p \in es}
+                           IN  [d |-> Carrier(FunRet(fnsym.ty))[1],
+                                m |-> [a \in args |-> (CHOOSE p \in es : p[1] = a)[2]]]
+        Complete(M) == [nm \in {s.n : s \in FreeSyms(f) \cup FreeSyms(out)} |->
+                           IF \E s \in funs : s.n = nm THEN Table(M, CHOOSE s \in funs : s.n = nm)
+                           ELSE IF nm \in DOMAIN M THEN M[nm]
+                           ELSE Carrier((CHOOSE s \in FreeSyms(f) : s.n = nm).ty)[1]]
+        oidx == InterpIdx(osyms, Cap)
+        illdef == {k \in oidx : LET M == InterpAt(osyms, k, Cap)
+                                IN  Eval(out, M, QDefault) /\ \E s \in funs : ~WellDef(M, s.n)}
+        spurious == {k \in oidx : LET M == InterpAt(osyms, k, Cap)
+                                  IN  Eval(out, M, QDefault) /\ (\A s \in funs : WellDef(M, s.n))
+                                      /\ ~Eval(f, Complete(M), QDefault)}
+        \* every model of f extends: give each ack constant the value of its application
+        aidx == InterpIdx(allsyms, Cap)
+        lost == {k \in aidx : LET I == InterpAt(allsyms, k, Cap)
+                                  J == [nm \in {amap[ap].n : ap \in DOMAIN amap} |->
+                                           Eval(CHOOSE ap \in DOMAIN amap : amap[ap].n = nm, I, QDefault)]
+                              IN  Eval(f, I, QDefault) /\ ~Eval(out, Override(I, J), QDefault)}
+    IN  IF e.res # "ok" THEN Verdict(<<"raises_on_input_in_fragment">>, <<>>, -1)
+        ELSE IF structural # <<>> THEN Verdict(structural, <<>>, -1)
+        ELSE IF ~(CanEval(f) /\ CanEval(out)) THEN Verdict(<<>>, <<"equisatisfiable">>, -1)
+        ELSE Verdict(Fl("models_of_input_extend_to_output", lost = {}) \o
+                     Fl("function_tables_well_defined", illdef = {}) \o
+                     Fl("models_of_output_restrict_to_input", spurious = {}), <<>>, -1)
 
 =============================================================================
